@@ -9,7 +9,7 @@ impl's own grammar (type-argument identity) and rejects other kinds; `from_strin
 Not decided: token-for-token equality and quoted/bare equality (value level)."""
 import re
 
-from vlib import mir
+from vlib import resalg, mir
 from . import common
 
 META = dict(
@@ -24,9 +24,8 @@ VARIANT_OF = {"syn::path::Path": "Path", "proc_macro2::Ident": "Path", "syn::exp
 def arms(ctx, f):
     """list of (set of expr-kind atoms, return expr)"""
     out = []
-    for blk, e in ctx.ret_exprs(f):
-        for d in ctx.pc_strs(f, blk):
-            out.append((sorted(a for a in d if a.startswith("discr(a1)=")), sorted(d), e))
+    for conds, v in resalg.cases(ctx, f):
+        out.append((sorted(a for a in conds if a.startswith("discr(a1)=")), conds, v))
     return out
 
 
